@@ -1915,6 +1915,317 @@ def vhost_part(ctx):
     ctx.extra["vhost_scenarios"] = stats
 
 
+# ----------------------------------------------------------------------------------------------
+# resumption: a cached session / ticket must not carry its suite into a version that does not define it
+# ----------------------------------------------------------------------------------------------
+
+def parse_client_hello(msg):
+    """genuine ClientHello message -> dict of its parts (extensions as [(type, data)], None when absent)"""
+    p = 4
+    ver = msg[p:p + 2]; p += 2
+    rnd = msg[p:p + 32]; p += 32
+    n = msg[p]; sid = msg[p + 1:p + 1 + n]; p += 1 + n
+    n = (msg[p] << 8) | msg[p + 1]; suites = msg[p + 2:p + 2 + n]; p += 2 + n
+    n = msg[p]; comp = msg[p + 1:p + 1 + n]; p += 1 + n
+    exts = None
+    if p < len(msg):
+        n = (msg[p] << 8) | msg[p + 1]
+        q, end = p + 2, p + 2 + n
+        exts = []
+        while q + 4 <= end:
+            t = (msg[q] << 8) | msg[q + 1]
+            ln = (msg[q + 2] << 8) | msg[q + 3]
+            exts.append((t, msg[q + 4:q + 4 + ln]))
+            q += 4 + ln
+    return {"ver": ver, "random": rnd, "sid": sid, "suites": suites, "comp": comp, "exts": exts}
+
+
+def build_client_hello(d):
+    body = d["ver"] + d["random"] + bytes([len(d["sid"])]) + d["sid"] + \
+        bytes([len(d["suites"]) >> 8, len(d["suites"]) & 0xff]) + d["suites"] + bytes([len(d["comp"])]) + d["comp"]
+    if d["exts"] is not None:
+        e = b"".join(bytes([t >> 8, t & 0xff, len(x) >> 8, len(x) & 0xff]) + x for t, x in d["exts"])
+        body += bytes([len(e) >> 8, len(e) & 0xff]) + e
+    return bytes([1, len(body) >> 16, (len(body) >> 8) & 0xff, len(body) & 0xff]) + body
+
+
+def parse_server_hello(msg):
+    """-> (negotiated version, suite, session id)"""
+    ver = (msg[4], msg[5])
+    n = msg[38]
+    sid = bytes(msg[39:39 + n])
+    p = 39 + n
+    suite = (msg[p] << 8) | msg[p + 1]
+    p += 3
+    if p + 2 <= len(msg):
+        end = p + 2 + ((msg[p] << 8) | msg[p + 1])
+        q = p + 2
+        while q + 4 <= end:
+            t = (msg[q] << 8) | msg[q + 1]
+            ln = (msg[q + 2] << 8) | msg[q + 3]
+            if t == 43 and ln == 2:
+                ver = (msg[q + 4], msg[q + 5])
+            q += 4 + ln
+    return ver, suite, sid
+
+
+def suite_lab_settings(sem, v):
+    """(client kind, credential kind, settings restricted to the suite's own names) as in live_one"""
+    st = full_settings(v, v)
+    st.cipherNames = [CIPHER_NAME[(sem["cipher"], sem["mode"], sem["keyLen"])]]
+    st.macNames = ["aead" if sem["mac"] is None else MAC_NAME[sem["mac"]]]
+    st.keyExchangeNames = [KEX_NAME[(sem["kex"], sem["auth"])]]
+    kind = "srp" if sem["kex"] == "srp" else ("anon" if sem["auth"] == "anon" else "cert")
+    cred = {"rsa": "rsa", "ecdsa": "ecdsa", "dss": "dsa"}.get(sem["auth"])
+    return kind, cred, st
+
+
+def drive_pair(gc, gs, limit=20000):
+    done = [False, False]
+    for _ in range(limit):
+        for i, g in enumerate((gc, gs)):
+            if not done[i]:
+                try:
+                    next(g)
+                except StopIteration:
+                    done[i] = True
+        if all(done):
+            return True
+    return False
+
+
+def server_gen(srv, kind, cred, st, cache):
+    kw = {"settings": st}
+    if cache is not None:
+        kw["sessionCache"] = cache
+    c = creds(cred) if cred else None
+    if c:
+        kw.update(certChain=c[0], privateKey=c[1])
+    if kind == "srp":
+        kw["verifierDB"] = verifier_db()
+    elif kind == "anon":
+        kw["anon"] = True
+    return srv.handshakeServerAsync(**kw)
+
+
+def resumption_case(s, sem, v0, v, mode, ticket_key):
+    """session for suite s made at version v0 (server with SessionCache / ticket keys); then a ClientHello
+    of version v carrying that session id / ticket and offering s (+ the client's own suites for v).
+    -> dict(status, version, suite, resumed) ; status 'hello' | 'alert:<n>' | 'error:<what>' | 'skipped:<why>'"""
+    from tlslite.tlsconnection import TLSConnection
+    from tlslite.sessioncache import SessionCache
+    kind, cred, st0 = suite_lab_settings(sem, v0)
+    if cred and creds(cred) is None:
+        return {"status": "skipped:no-credentials"}
+    cache = SessionCache() if mode == "cache" else None
+    sst = full_settings((3, 0), (3, 4))
+    if mode == "ticket":
+        sst.ticketKeys = [bytearray(ticket_key)]
+        sst.ticket_count = 1
+    # --- the original connection
+    c0, g0, a0, b0 = start_client(kind, st0)
+    srv0 = TLSConnection(MemSock(a0, b0))
+    try:
+        if not drive_pair(g0, server_gen(srv0, kind, cred, sst, cache)):
+            return {"status": "skipped:first-handshake-stalled"}
+    except Exception as e:
+        return {"status": "skipped:first-handshake-" + exc_name(e)}
+    if c0.session.cipherSuite != s or tuple(c0.version) != v0:
+        return {"status": "skipped:first-handshake-other-suite"}
+    if mode == "cache":
+        token = bytes(c0.session.sessionID)
+        if not token:
+            return {"status": "skipped:no-session-id"}
+    else:
+        # the NewSessionTicket arrives with the server's Finished flight; make sure it was read
+        tk = list(c0.session.tls_1_0_tickets or []) or list(getattr(c0, "tls_1_0_tickets", []) or [])
+        if not tk:
+            return {"status": "skipped:no-ticket"}
+        token = bytes(tk[0].ticket)
+    # --- a genuine ClientHello for version v, edited to carry the session
+    kind_v = kind if v <= (3, 3) else "cert"
+    c1, g1, a1, b1 = start_client(kind_v, full_settings(v, v))
+    if step_until_blocked(g1, b1) != "blocked":
+        return {"status": "error:no-client-hello"}
+    ch = first_handshake_msg(a1.log, 1)
+    if ch is None:
+        return {"status": "error:no-client-hello"}
+    d = parse_client_hello(ch[1])
+    own = d["suites"]
+    d["suites"] = bytes([s >> 8, s & 0xff]) + own
+    if mode == "cache":
+        d["sid"] = token
+    else:
+        if d["exts"] is None:
+            return {"status": "skipped:no-extensions-in-this-version"}
+        d["sid"] = bytes(range(32))
+        d["exts"] = [(t, x) for t, x in d["exts"] if t != 35] + [(35, token)]
+        # pre_shared_key, if any, has to stay last
+        d["exts"].sort(key=lambda e: e[0] == 41)
+    a2, b2 = Pipe(), Pipe()
+    srv1 = TLSConnection(MemSock(a2, b2))
+    a2.buf += record(ch[0], build_client_hello(d))
+    r = step_until_blocked(server_gen(srv1, kind_v, cred or ("rsa" if kind_v == "cert" else None), sst, cache), a2)
+    sh = first_handshake_msg(b2.log, 2)
+    if sh is None:
+        if isinstance(r, tuple):
+            return {"status": "%s:%s" % r}
+        return {"status": "error:%s-without-hello" % r}
+    ver, suite, sid = parse_server_hello(sh[1])
+    # abbreviated handshake: the server's next record after the hello flight is ChangeCipherSpec
+    recs = app_records(b2.log, 0)
+    resumed = sid == d["sid"] and len(recs) >= 2 and recs[1][0] == 20 and ver <= (3, 3)
+    return {"status": "hello", "version": ver, "suite": suite, "resumed": resumed}
+
+
+def resumption_honest(s, sem, v0, span, mode, ticket_key):
+    """the same, with an ordinary tlslite client that is handed the old session and a different version
+    range.  -> dict(status, version, suite, completed) taken from the ServerHello on the wire"""
+    from tlslite.tlsconnection import TLSConnection
+    from tlslite.sessioncache import SessionCache
+    kind, cred, st0 = suite_lab_settings(sem, v0)
+    if cred and creds(cred) is None:
+        return {"status": "skipped:no-credentials"}
+    cache = SessionCache() if mode == "cache" else None
+    sst = full_settings((3, 0), (3, 4))
+    if mode == "ticket":
+        sst.ticketKeys = [bytearray(ticket_key)]
+        sst.ticket_count = 1
+    c0, g0, a0, b0 = start_client(kind, st0)
+    srv0 = TLSConnection(MemSock(a0, b0))
+    try:
+        if not drive_pair(g0, server_gen(srv0, kind, cred, sst, cache)):
+            return {"status": "skipped:first-handshake-stalled"}
+    except Exception as e:
+        return {"status": "skipped:first-handshake-" + exc_name(e)}
+    if c0.session.cipherSuite != s:
+        return {"status": "skipped:first-handshake-other-suite"}
+    a, b = Pipe(), Pipe()
+    c1 = TLSConnection(MemSock(b, a))
+    srv1 = TLSConnection(MemSock(a, b))
+    st1 = full_settings(*span)
+    try:
+        if kind == "srp":
+            g1 = c1.handshakeClientSRP("user", "password", session=c0.session, settings=st1, async_=True)
+        elif kind == "anon":
+            g1 = c1.handshakeClientAnonymous(session=c0.session, settings=st1, async_=True)
+        else:
+            g1 = c1.handshakeClientCert(session=c0.session, settings=st1, async_=True)
+        gs = server_gen(srv1, kind, cred, sst, cache)
+        done = {"client": None, "server": None}
+        gens = {"client": g1, "server": gs}
+        for _ in range(20000):
+            for side in ("client", "server"):
+                if done[side] is None:
+                    try:
+                        next(gens[side])
+                    except StopIteration:
+                        done[side] = "completed"
+                    except Exception as e:
+                        done[side] = exc_name(e)
+            if all(done.values()) or (any(done.values()) and not a.buf and not b.buf):
+                break
+    except ValueError as e:
+        return {"status": "skipped:client-refuses-session"}
+    sh = first_handshake_msg(b.log, 2)
+    if sh is None:
+        return {"status": "no-hello", "client": done["client"], "server": done["server"]}
+    ver, suite, sid = parse_server_hello(sh[1])
+    return {"status": "hello", "version": ver, "suite": suite, "client": done["client"], "server": done["server"],
+            "resumed": bool(getattr(c1, "resumed", False)) if done["client"] == "completed" else False}
+
+
+def resumption_part(ctx, neg):
+    from tlslite.constants import CipherSuite as C
+    names = dict(C.ietfNames)
+    lc = ctx.lean()
+    mac, ciph, kex = vocab()
+    t0 = time.time()
+    ticket_key = bytes(ctx.rng.getrandbits(8) for _ in range(32))
+    suites = sorted(set(x for (role, v), ss in neg.items() if v <= (3, 3) for x in ss))
+    if not ctx.thorough():
+        # quick: every suite that is defined from TLS 1.2 on, and a third of the older ones
+        old = [x for x in suites if parse_iana(names[x]) and parse_iana(names[x])["minMinor"] < 3]
+        ctx.rng.shuffle(old)
+        suites = sorted(set(suites) - set(old[len(old) // 3:]))
+    stats = {}
+    pending = []
+    for s in suites:
+        sem = parse_iana(names.get(s, ""))
+        if sem is None or spec_obs(sem, (3, 3)) is None:
+            continue
+        v0 = (3, 3)
+        for mode in ("cache", "ticket"):
+            for v in VERSIONS:
+                if v == v0:
+                    if mode == "ticket" and s % 4:      # the control (same version) for a quarter of them
+                        continue
+                res = resumption_case(s, sem, v0, v, mode, ticket_key)
+                case = {"stage": "resumption", "suite": s, "name": names[s], "made_in": list(v0), "offered_in": list(v),
+                        "mode": mode, "ticket_key": ticket_key.hex()}
+                key = res["status"].split(":")[0]
+                if res["status"] == "hello":
+                    key = "resumed" if res["resumed"] else "full-handshake"
+                stats[key] = stats.get(key, 0) + 1
+                ctx.count("resumption:%s:%s" % (mode, key))
+                ctx.case(key=("resume", s, v, mode), sample=dict(case, result={k: (list(x) if isinstance(x, tuple) else x)
+                                                                             for k, x in res.items()})
+                         if (s == 0x003c and v in ((3, 2), (3, 3))) else None)
+                if res["status"] != "hello":
+                    continue
+                ver, got = tuple(res["version"]), res["suite"]
+                gsem = parse_iana(names.get(got, ""))
+                if gsem is None or not defined_in(gsem, ver):
+                    ctx.violation("c20:resumption-suite-in-undefined-version",
+                                  "session with 0x%04x %s made in %d.%d (%s), offered again in a %d.%d ClientHello: the server "
+                                  "answers with version %d.%d and suite 0x%04x %s%s, which that version does not define"
+                                  % (s, names[s], v0[0], v0[1], mode, v[0], v[1], ver[0], ver[1], got, names.get(got),
+                                     " (abbreviated handshake)" if res["resumed"] else ""),
+                                  dict(case, parameter="resumption", answered_version=list(ver), answered_suite=got))
+                pending.append((case, res, "resok %d %d %d %s %s %s" % (ver[0], ver[1], s, names_arg(mac), names_arg(ciph),
+                                                                        names_arg(kex))))
+    # ordinary client re-using the session with a raised / lowered version range
+    for s in suites:
+        sem = parse_iana(names.get(s, ""))
+        if sem is None or spec_obs(sem, (3, 3)) is None:
+            continue
+        if not ctx.thorough() and sem["minMinor"] < 3 and s % 2:
+            continue
+        for mode in ("cache", "ticket"):
+            for span in (((3, 3), (3, 4)), ((3, 1), (3, 2)), ((3, 0), (3, 3))):
+                if mode == "ticket" and span != ((3, 3), (3, 4)) and s % 3:
+                    continue
+                res = resumption_honest(s, sem, (3, 3), span, mode, ticket_key)
+                case = {"stage": "resumption-honest", "suite": s, "name": names[s], "made_in": [3, 3], "mode": mode,
+                        "span": [list(span[0]), list(span[1])], "ticket_key": ticket_key.hex()}
+                key = res["status"].split(":")[0]
+                if res["status"] == "hello":
+                    key = "resumed" if res["resumed"] else ("completed" if res["client"] == "completed" else "hello-then-abort")
+                ctx.count("resumption-honest:%s:%s" % (mode, key))
+                stats["honest-" + key] = stats.get("honest-" + key, 0) + 1
+                ctx.case(key=("resume-honest", s, span, mode), sample=None)
+                if res["status"] != "hello":
+                    continue
+                ver, got = tuple(res["version"]), res["suite"]
+                gsem = parse_iana(names.get(got, ""))
+                if gsem is None or not defined_in(gsem, ver):
+                    ctx.violation("c20:resumption-suite-in-undefined-version",
+                                  "client re-using its %d.%d session with 0x%04x %s (%s) while allowing %d.%d..%d.%d: the server's "
+                                  "ServerHello says version %d.%d with suite 0x%04x %s, which that version does not define "
+                                  "(client: %s, server: %s)"
+                                  % (3, 3, s, names[s], mode, span[0][0], span[0][1], span[1][0], span[1][1], ver[0], ver[1], got,
+                                     names.get(got), res["client"], res["server"]),
+                                  dict(case, parameter="resumption", answered_version=list(ver), answered_suite=got))
+    if lc is not None and pending:
+        out = lc.batch([p[2] for p in pending])
+        for (case, res, line), m in zip(pending, out):
+            ctx.compared()
+            # the model's check is necessary for resumption (other conditions may still prevent it)
+            if res["resumed"] and res["suite"] == case["suite"] and m != "1":
+                ctx.disagree("server-resumption-suite-check", dict(case, request=line), "not resumable (%s)" % m, "resumed")
+    ctx.extra["resumption"] = dict(stats, wall_s=round(time.time() - t0, 1))
+
+
 def run(ctx):
     ctx.rule = ("exhaustive: every identifier in ietfNames or any classification list (+8 unknown ids) x every mirrored function; "
                 "filterForVersion over all (min,max) pairs; filter_for_certificate over all certificate algorithms; every "
@@ -1925,7 +2236,9 @@ def run(ctx):
                 "does not define), a consistent misbehaving server run to completion, and every suite offered alone in a genuine "
                 "ClientHello of every version (server must not select what the version does not define); TLS 1.3: one KeyUpdate each way "
                 "with independently derived next-generation secrets/keys; servers with a default + a virtual-host credential "
-                "(RSA/ECDSA/Ed25519/DSA pairs) x client signature-algorithm restrictions; distinct = distinct (stream, suite, version, role, settings)")
+                "(RSA/ECDSA/Ed25519/DSA pairs) x client signature-algorithm restrictions; resumption: sessions (SessionCache and "
+                "RFC 5077 tickets) made in TLS 1.2 and offered again in every version by an edited ClientHello and by an ordinary "
+                "client with a raised / lowered version range; distinct = distinct (stream, suite, version, role, settings)")
     ctx.assumptions = ["the independent Python reading parse_iana/spec_obs in harness/props/c20.py states what a registered name denotes",
                        "pure-python cipher implementations (no m2crypto/pycrypto in this environment)",
                        "test credentials of /repo/tests (RSA, ECDSA P-256, DSA); SRP verifier generated on the fly"]
@@ -1933,6 +2246,7 @@ def run(ctx):
     live_part(ctx, neg, ctx.pick(45, 600))
     faulty_peer_part(ctx, neg)
     vhost_part(ctx)
+    resumption_part(ctx, neg)
 
 
 def replay(ctx, rep):
@@ -1947,6 +2261,26 @@ def replay(ctx, rep):
         status, obs = live_one(ctx, s, v, name, parse_iana(name))
         print("live handshake 0x%04x %s in %d.%d: %s" % (s, name, v[0], v[1], status))
         return status != "ok"
+    if inp.get("stage") == "resumption":
+        name = C.ietfNames.get(s)
+        sem = parse_iana(name)
+        res = resumption_case(s, sem, tuple(inp["made_in"]), tuple(inp["offered_in"]), inp["mode"],
+                              bytes.fromhex(inp["ticket_key"]))
+        print("session 0x%04x %s made in %s (%s), offered in %s: %s" % (s, name, inp["made_in"], inp["mode"], inp["offered_in"], res))
+        if res["status"] != "hello":
+            return False
+        gsem = parse_iana(C.ietfNames.get(res["suite"], ""))
+        return gsem is None or not defined_in(gsem, tuple(res["version"]))
+    if inp.get("stage") == "resumption-honest":
+        name = C.ietfNames.get(s)
+        sem = parse_iana(name)
+        span = (tuple(inp["span"][0]), tuple(inp["span"][1]))
+        res = resumption_honest(s, sem, tuple(inp["made_in"]), span, inp["mode"], bytes.fromhex(inp["ticket_key"]))
+        print("session 0x%04x %s made in %s (%s), client now allows %s..%s: %s" % (s, name, inp["made_in"], inp["mode"], span[0], span[1], res))
+        if res["status"] != "hello":
+            return False
+        gsem = parse_iana(C.ietfNames.get(res["suite"], ""))
+        return gsem is None or not defined_in(gsem, tuple(res["version"]))
     if inp.get("stage") == "vhost":
         v = tuple(inp["version"])
         res = vhost_case(inp["default"], inp["extra"], inp["client_sigs"], v)
